@@ -177,9 +177,59 @@ PROPS = {
                 "texts_with_non_ascii": 500, "damage_invalid_utf8": 1000, "damage_lone_surrogates": 500, "odd_utf16_tails": 1000,
                 "inputs_with_replacement_in_dispatched_line": 500},
     },
+    "C11": {
+        "level": "exploration",
+        "rule": ("exhaustive: every recognised and several unknown/misspelled keys of General, Editor, Metadata, Difficulty, Colours x 67 value classes (valid, both "
+                 "boundaries of every limit and clamp, overflow, NaN/inf, empty, padded, +n, comment-suffixed, extra colons, wrong type) x 6 spellings as single "
+                 "records; every same-key ordered pair; all key pairs of Difficulty and Colours; all singles, ordered pairs and triples of 36 event shapes; plus "
+                 "random sequences of up to 5 sections x 7 records. Oracle: decoded fields == table-driven reference written from the statement. "
+                 "non-trivial = the reference result differs from the default map; distinct by FNV-64 of the text"),
+        "assumptions": COMMON_ASSUMPTIONS + ["which lines reach which section is taken from the framing model (checked separately by C05)"],
+        "quick": [leg("main", "rel", 16, 25000, timeout=600, max_secs=150)],
+        "thorough": [leg("main", "rel", 16, 1500000, timeout=3600, max_secs=1700)],
+        "min": {"records_General": 50000, "records_Editor": 50000, "records_Metadata": 50000, "records_Difficulty": 50000, "records_Events": 50000, "records_Colours": 50000},
+    },
+    "C12": {
+        "level": "exploration",
+        "rule": ("exhaustive: all sequences of length <= 3 (quick) / 4 (thorough) over a spread sub-alphabet (~58 lines) of 7 times {0, 1e-17, 10, 10.0, 20, -5, -0} x 9 beat "
+                 "lengths {500, -50, 0, -1e-5, 1e9, NaN, -200, 5, -1e6} x 9 field tails (timing/inherited, kiai/omit flags, banks 0-3/9, volumes -5..150, trailing fields "
+                 "cut) in all four modes; plus random sequences of 5-60 lines mixing alphabet lines with generated ones (real-valued, decreasing and repeated times, "
+                 "omitted trailing fields, hostile tokens, General defaults for bank/volume). Oracle: decoded lists == legacy pending-group model (linear scans), and, "
+                 "separately, strict time order and clamps. non-trivial = at least one line accepted; distinct by FNV-64 of the text"),
+        "assumptions": COMMON_ASSUMPTIONS + ["-0.0 and 0.0 are the same time"],
+        "quick": [leg("main", "rel", 16, 4000, timeout=600, max_secs=150)],
+        "thorough": [leg("main", "rel", 16, 100000, timeout=3600, max_secs=1700)],
+        "min": {"lines_accepted": 200000, "lines_rejected": 20000, "points_compared": 400000, "cases_with_nan_inherited_line": 5000, "random_cases": 10000},
+    },
+    "C13": {
+        "level": "exploration",
+        "rule": ("exhaustive: all histories of ControlPoints::add calls of length <= 3 (quick) / 5 (thorough) over 32 operations (4 kinds x times {-1,0,1,2} x 2 values); "
+                 "random histories of 10-200 operations over pooled fractional/negative/duplicate times including -0.0 and values that are redundant, different, or "
+                 "below the redundancy epsilon. After every operation all four lists are compared with a linear-scan reference, strict order is asserted, and all four "
+                 "lookups are probed at every stored time, every midpoint and beyond both ends. non-trivial = history of at least 2 operations; distinct by hash of the history"),
+        "assumptions": COMMON_ASSUMPTIONS + ["-0.0 and 0.0 are the same time"],
+        "quick": [leg("main", "rel", 16, 2500, timeout=600, max_secs=150), leg("dbg", "dbg", 4, 300, timeout=600, max_secs=120)],
+        "thorough": [leg("main", "rel", 16, 62500, timeout=3600, max_secs=1700), leg("dbg", "dbg", 8, 5000, timeout=3600, max_secs=900)],
+        "min": {"operations_checked": 500000, "lookups_checked": 5000000},
+    },
 }
 
 MANIFEST_TEXT = {
+    "C12": {
+        "technique": "runtime monitoring: reference-model oracle (legacy pending-group model with linear scans) + independent structural invariants over exhaustively enumerated short line sequences and random long ones",
+        "level_text": "Short sequences over a small alphabet with many equal times are enumerated completely in all modes; long random sequences are sampled; every decoded list must equal the model and satisfy order/clamp invariants.",
+        "level_note": "Exhaustive over the stated small world (exhaustive: true), sampled beyond.",
+    },
+    "C13": {
+        "technique": "runtime monitoring: lock-step linear-scan reference of the public ControlPoints::add / *_point_at API after every operation; exhaustive short histories + random long ones",
+        "level_text": "All add-histories up to a bounded length over 32 operations are enumerated; after each operation lists and lookups are compared with the reference.",
+        "level_note": "Exhaustive over short histories (exhaustive: true), sampled over long ones.",
+    },
+    "C11": {
+        "technique": "runtime monitoring: reference-model oracle (table-driven interpretation of records) over exhaustively enumerated key x value-class records, pairs, event triples and random sequences",
+        "level_text": "The key x value-class matrix, same-key pairs, cross-key pairs of the sections with order rules and all event pairs/triples are enumerated completely; longer mixed sequences are sampled.",
+        "level_note": "Exhaustive over the stated small worlds (exhaustive: true), sampled beyond. The reference is hand-written from the statement.",
+    },
     "C06": {
         "technique": "runtime monitoring: delete-the-rejected-line differential, rejected lines taken from the implementation's own tracing event log and the public per-line parsers; state-boundary assertion after every Err; slider subset under Miri",
         "level_text": "Tens of thousands of rejected lines per run in all eight sections; each is removed and the full deep result compared; a rejected line that leaves any trace refutes the property.",
